@@ -4,6 +4,8 @@ import (
 	"sync"
 	"time"
 	"unsafe"
+
+	"github.com/goghcrow/yae/verifhook"
 )
 
 /*
@@ -24,18 +26,22 @@ var tcCacheMut = sync.Mutex{}
 func parse_tzfile(formal_tzname *C.char, tzdb *C.timelib_tzdb, dummy_error_code *C.int) *C.timelib_tzinfo {
 	g_formal_tzname := C.GoString(formal_tzname)
 
+	verifhook.Lock(&tcCacheMut, "timelib.tzCache")
 	tcCacheMut.Lock()
 	tzi, ok := tzCache[g_formal_tzname]
 	tcCacheMut.Unlock()
+	verifhook.Unlock(&tcCacheMut, "timelib.tzCache")
 	if ok {
 		return tzi
 	}
 
 	tzi = C.timelib_parse_tzfile(formal_tzname, tzdb, dummy_error_code)
 	if tzi != nil {
+		verifhook.Lock(&tcCacheMut, "timelib.tzCache")
 		tcCacheMut.Lock()
 		tzCache[g_formal_tzname] = tzi
 		tcCacheMut.Unlock()
+		verifhook.Unlock(&tcCacheMut, "timelib.tzCache")
 	}
 	return tzi
 }
